@@ -1,3 +1,3 @@
 (* C11 — lemma collection: normalisation (NormProofs), tent / compute_delta / DeltaSetIndexMap (TentProofs),
    VariationStoreBuilder retrieval (IvsProofs).  Props.v restates the property-level theorems. *)
-From FV Require Export C11.NormProofs C11.TentProofs C11.IvsProofs.
+From FV Require Export C11.NormProofs C11.TentProofs C11.IvsProofs C11.IvsRetrieval.
